@@ -22,6 +22,7 @@ mod extract;
 mod c01;
 mod c02;
 mod tables;
+mod cli;
 mod lexcases;
 mod c20;
 mod c07;
